@@ -90,7 +90,10 @@ fn gen_token(r: &mut Rng, n: u16, msb: u8) -> i64 {
             let shifted = ((boundary as i128 + delta).rem_euclid(1i128 << 64)) as u128;
             // biased = (high bits arbitrary) | (shifted >> msb), low bits of shifted that do not come
             // from biased are lost: only multiples of 2^msb are reachable; round.
-            let low = (shifted >> msb) as u64;
+            // the bits below 2^msb of `shifted` cannot come from `biased`: rounding down lands on the
+            // last value of the previous shard most of the time, so also round up half of the time
+            let low = ((shifted >> msb) as u64).wrapping_add(if msb > 0 && r.bool() { 1 } else { 0 })
+                & (if msb == 0 { u64::MAX } else { (1u64 << (64 - msb as u32)) - 1 });
             let high = if msb == 0 { 0 } else { r.u64() << (64 - msb as u32) };
             let biased = high | low;
             let t = (biased.wrapping_sub(1u64 << 63)) as i64;
